@@ -58,3 +58,12 @@ func Get(name string, bits int) *Pair {
 	cache[id] = p
 	return p
 }
+
+// PEM returns a committed PEM file by name, e.g. "a2048.key.pem" or "b2048.cert.pem".
+func PEM(name string) []byte {
+	b, err := files.ReadFile(name)
+	if err != nil {
+		panic(err)
+	}
+	return b
+}
